@@ -488,3 +488,6 @@ func checkEnd(w *world, out *sched.Outcome) (string, string) {
 }
 
 func mctimeReset() { mctime.Reset() }
+
+// Cleanup closes every descriptor the ledger still lists as open (executions that were unwound).
+func (w *world) Cleanup() { mcsys.CloseAllOpen() }
